@@ -13,10 +13,58 @@ class Finding:
         self.kind, self.node, self.name, self.detail = kind, node, name, detail
 
 
+RETURN_LEVELS = {}  # helper name -> {positional index: 'alias' | 'shallow'} (set per module by return_levels)
+
+
+def return_levels(tree):
+    """{name: {arg index: level}} for the module's own helpers: what a helper hands back with respect to each of its
+    positional parameters - the parameter itself ('alias'), a shallow copy of it ('shallow'), or neither.  Every
+    definition of the name counts (the arms of a version gate, `name = copy.copy`); the weakest copy level wins."""
+    out = {}
+    order = {"alias": 2, "shallow": 1}
+
+    def note(name, idx, lv):
+        cur = out.setdefault(name, {}).get(idx)
+        if cur is None or order[lv] > order[cur]:
+            out[name][idx] = lv
+
+    for n in ast.walk(tree):
+        if isinstance(n, (ast.FunctionDef, ast.AsyncFunctionDef)):
+            params = [a.arg for a in n.args.posonlyargs + n.args.args]
+            for idx, par in enumerate(params):
+                st = {par: ("alias", par)}
+                for r in ast.walk(n):
+                    if isinstance(r, ast.Assign) and len(r.targets) == 1 and isinstance(r.targets[0], ast.Name):
+                        lv = _level_of(r.value, st)
+                        if lv and r.targets[0].id != par:
+                            st[r.targets[0].id] = lv
+                for r in ast.walk(n):
+                    if isinstance(r, ast.Return) and r.value is not None:
+                        lv = _level_of(r.value, st)
+                        if lv:
+                            note(n.name, idx, lv[0])
+        elif isinstance(n, ast.Assign) and len(n.targets) == 1 and isinstance(n.targets[0], ast.Name) and isinstance(n.value, (ast.Name, ast.Attribute)):
+            fn = ast.unparse(n.value)
+            if fn in SHALLOW_CALLS:
+                note(n.targets[0].id, 0, "shallow")
+    return out
+
+
 def _level_of(expr, state):
     """copy level of an expression wrt tracked tables: ('alias'|'shallow', param) or None (fresh/unrelated)."""
     if isinstance(expr, ast.Name):
         return state.get(expr.id)
+    if isinstance(expr, ast.Call) and isinstance(expr.func, ast.Name) and expr.func.id in RETURN_LEVELS:
+        best = None
+        for idx, lv in RETURN_LEVELS[expr.func.id].items():
+            if idx < len(expr.args):
+                inner = _level_of(expr.args[idx], state)
+                if inner:
+                    cand = (inner[0] if lv == "alias" else "shallow", inner[1])
+                    if best is None or cand[0] == "alias":
+                        best = cand
+        if best is not None:
+            return best
     if isinstance(expr, ast.IfExp):
         a, b = _level_of(expr.body, state), _level_of(expr.orelse, state)
         for lv in ("alias", "shallow"):
